@@ -514,6 +514,7 @@ def c06(run):
 
 def c11(run):
     r14_interp.run_r14(run)
+    r8_accessors.check_accessor(run, run.prog.func('super_pose:SMPose.interp'))
     _scope_rules(run, 'C11')
     run.floor('R14', 25)
     run.explanation = ('Interpolation, structural part: every value-returning path of trinterp, slerp and UnitQuaternion.interp has passed '
